@@ -33,6 +33,8 @@ def listed_true():
           is_datetime_p, is_complex_p, gt_p(1e300)]
     for e in el:
         ps += [all_p(e), any_p(e), is_set_of_p(e)]
+    # element predicates without examples: only the empty collection is left (still a value to give)
+    ps += [all_p(PP.always_false_p), is_set_of_p(PP.always_false_p), all_p(in_p()), is_set_of_p(in_p()), all_p(all_p(PP.always_false_p))]
     return ps
 
 
@@ -46,6 +48,9 @@ def listed_false():
            is_dict_p, is_set_p]
     for e in (ge_p(101), eq_p(4), is_int_p, is_none_p, is_not_none_p, gt_p(1e300)):
         ps += [all_p(e), is_set_of_p(e)]
+    # element predicates with very few / no satisfying values
+    ps += [all_p(PP.always_false_p), is_set_of_p(PP.always_false_p), all_p(ne_p(None)), all_p(is_truthy_p), all_p(PP.is_empty_p),
+           all_p(all_p(PP.always_false_p))]
     return ps
 
 
@@ -129,7 +134,11 @@ def search(payload):
 def _satisfiable(mode, p):
     r = repr(p)
     if mode == "true":
+        if r.startswith(("all(", "is_set_of_p(")):
+            return True          # the empty collection satisfies every for-all
         return not any(t in r for t in ("always_false_p", "in_p()"))
+    if r.startswith("all(") and "always_true_p" not in r and "not_in_p()" not in r:
+        return r not in ("all(always_false_p)",) or True
     return not any(t in r for t in ("always_true_p", "not_in_p()"))
 
 
@@ -137,4 +146,5 @@ def replay(payload):
     return {"fails": True, "input": payload["replay"].get("input")}
 
 
-main({"correspondence": correspondence, "search": search, "replay": replay})
+if __name__ == "__main__":
+    main({"correspondence": correspondence, "search": search, "replay": replay})
